@@ -324,6 +324,121 @@ class _YieldFromGenExp(ast.NodeTransformer):
         return body
 
 
+class _LoopIdioms(ast.NodeTransformer):
+    """Loop spellings from the standard library, written back as plain loops (run before everything else):
+      for i, x in enumerate(xs, start=K): B        ->  i = K - 1; for x in xs: i += 1; B
+      for x in takewhile(lambda v: C(v), xs): B    ->  for x in xs: if not C(x): break; B
+      it = <generator expression / takewhile / map / filter>; ... for x in it: B   (single use)  ->  for x in <that>: B
+      d.update({k: v for x in xs if c})            ->  for x in xs: if c: d[k] = v
+    """
+
+    def __init__(self):
+        self.n = 0
+
+    def _block(self, stmts):
+        # single-use lazy iterables bound to a local are put where they are consumed
+        changed = True
+        while changed:
+            changed = False
+            for i, st in enumerate(stmts):
+                if not (isinstance(st, ast.Assign) and len(st.targets) == 1 and isinstance(st.targets[0], ast.Name)):
+                    continue
+                v = st.value
+                lazy = isinstance(v, ast.GeneratorExp) or (isinstance(v, ast.Call) and (_dotted(v.func) or '').rsplit('.', 1)[-1] in ('takewhile', 'dropwhile', 'map', 'filter', 'islice', 'chain'))
+                if not lazy:
+                    continue
+                name = st.targets[0].id
+                rest = stmts[i + 1 :]
+                uses = [n for r in rest for n in ast.walk(r) if isinstance(n, ast.Name) and n.id == name]
+                stores = [n for r in stmts for n in ast.walk(r) if isinstance(n, ast.Name) and n.id == name and isinstance(n.ctx, (ast.Store, ast.Del))]
+                if len(uses) != 1 or len(stores) != 1 or not isinstance(uses[0].ctx, ast.Load):
+                    continue
+                u = uses[0]
+                holder = None
+                for r in rest:
+                    for par in ast.walk(r):
+                        if isinstance(par, (ast.For, ast.AsyncFor)) and par.iter is u:
+                            holder = (par, 'iter', None)
+                        elif isinstance(par, ast.Call) and (_dotted(par.func) or '').rsplit('.', 1)[-1] in ('takewhile', 'dropwhile', 'map', 'filter') and len(par.args) == 2 and par.args[1] is u:
+                            holder = (par, 'args', 1)
+                if holder is None:
+                    continue
+                par, fld, idx = holder
+                if idx is None:
+                    setattr(par, fld, v)
+                else:
+                    getattr(par, fld)[idx] = v
+                del stmts[i]
+                self.n += 1
+                changed = True
+                break
+        return stmts
+
+    def generic_visit(self, node):
+        super().generic_visit(node)
+        for fld in ('body', 'orelse', 'finalbody'):
+            blk = getattr(node, fld, None)
+            if isinstance(blk, list) and blk and isinstance(blk[0], ast.stmt):
+                blk = self._block(blk)
+                out = []
+                for st in blk:
+                    r = self._stmt(st)
+                    out.extend(r if isinstance(r, list) else [r])
+                setattr(node, fld, out or [ast.Pass()])
+        return node
+
+    def _stmt(self, st):
+        # d.update({k: v for x in xs if c})
+        if isinstance(st, ast.Expr) and isinstance(st.value, ast.Call) and isinstance(st.value.func, ast.Attribute) and st.value.func.attr == 'update' and len(st.value.args) == 1 and not st.value.keywords and isinstance(st.value.args[0], ast.DictComp) and isinstance(st.value.func.value, ast.Name):
+            comp = st.value.args[0]
+            if not any(g.is_async for g in comp.generators):
+                body = [ast.Assign(targets=[ast.Subscript(value=st.value.func.value, slice=comp.key, ctx=ast.Store())], value=comp.value, type_comment=None)]
+                for g in reversed(comp.generators):
+                    for cond in reversed(g.ifs):
+                        body = [ast.If(test=cond, body=body, orelse=[])]
+                    body = [ast.For(target=g.target, iter=g.iter, body=body, orelse=[], type_comment=None)]
+                self.n += 1
+                return [ast.fix_missing_locations(ast.copy_location(b, st)) for b in body]
+        if isinstance(st, (ast.For, ast.AsyncFor)) and not st.orelse and isinstance(st.iter, ast.Call):
+            fn = (_dotted(st.iter.func) or '').rsplit('.', 1)[-1]
+            it = st.iter
+            # enumerate
+            if fn == 'enumerate' and isinstance(st, ast.For) and it.args and isinstance(st.target, ast.Tuple) and len(st.target.elts) == 2 and isinstance(st.target.elts[0], ast.Name):
+                start = it.args[1] if len(it.args) > 1 else next((k.value for k in it.keywords if k.arg == 'start'), ast.Constant(value=0))
+                if isinstance(start, ast.Constant) and isinstance(start.value, int):
+                    cname = st.target.elts[0]
+                    init = ast.Assign(targets=[ast.Name(id=cname.id, ctx=ast.Store())], value=ast.Constant(value=start.value - 1), type_comment=None)
+                    inc = ast.AugAssign(target=ast.Name(id=cname.id, ctx=ast.Store()), op=ast.Add(), value=ast.Constant(value=1))
+                    st.target = st.target.elts[1]
+                    st.iter = it.args[0]
+                    st.body = [inc] + st.body
+                    self.n += 1
+                    for x in (init, inc):
+                        ast.copy_location(x, st)
+                    return [ast.fix_missing_locations(init), ast.fix_missing_locations(st)]
+            # takewhile
+            if fn == 'takewhile' and isinstance(st, ast.For) and len(it.args) == 2 and isinstance(it.args[0], ast.Lambda) and len(it.args[0].args.args) == 1 and isinstance(st.target, ast.Name):
+                lam = it.args[0]
+                cond = _Subst({}, {lam.args.args[0].arg: ast.Name(id=st.target.id, ctx=ast.Load())}).visit(copy.deepcopy(lam.body))
+                guard = ast.If(test=ast.UnaryOp(op=ast.Not(), operand=cond), body=[ast.Break()], orelse=[])
+                st.iter = it.args[1]
+                st.body = [ast.fix_missing_locations(ast.copy_location(guard, st))] + st.body
+                self.n += 1
+                return ast.fix_missing_locations(st)
+        return st
+
+
+def _dotted(e):
+    parts = []
+    while isinstance(e, ast.Attribute):
+        parts.append(e.attr)
+        e = e.value
+    if isinstance(e, ast.Name):
+        parts.append(e.id)
+        return '.'.join(reversed(parts))
+    return None
+
+
 class _CallIdioms(ast.NodeTransformer):
     """`itemgetter(k)` is `lambda x: x[k]`; `attrgetter('a')` is `lambda x: x.a`;
     `d.setdefault(k, []).append(v)` is the per-key collection `d[k].append(v)` of a defaultdict"""
@@ -2966,6 +3081,11 @@ class Normalizer:
         return x == y and y not in rm
 
     def run(self):
+        for tree in self.trees.values():
+            li = _LoopIdioms()
+            li.visit(tree)
+            self.stats['idioms'] += li.n
+            ast.fix_missing_locations(tree)
         self._rehome_moved_definitions()
         self._flatten_new_bases()
         self._reoutline()
